@@ -854,7 +854,16 @@ class CallMixin(ExprMixin):
         post_st.env = dict(env)
         post_st.env["result"] = res
         auto = self.class_inv(con.self_cls) if (con.self_cls and not con.no_class_inv and recv is not None) else []
+        view = None
+        for suffix, labels in getattr(self.c, "callee_views", {}).items():
+            if con.qual.endswith(suffix):
+                view = labels
+                unknown = labels - set(l for l, _ in con.ensures_)
+                if unknown:
+                    raise BindingError("callee_view(%s): %s has no postcondition labelled %s" % (suffix, con.qual, sorted(unknown)))
         for label, expr in auto + list(con.ensures_):
+            if view is not None and (label, expr) in con.ensures_ and label not in view:
+                continue
             normal_st.assume(self.spec_assume(expr, post_st, old=call_st))
         if is_async:
             return [(normal_st, V(PYOBJ, PyThing("awaited", value=res)))]
